@@ -443,6 +443,7 @@ def _make_split(delimiter, lineiter):
 
 
 def _mkprof_from_database(destination, db, schema, where, full, gzip):
+    remake_records = schema is not None
     if schema is None:
         schema = db.schema
 
@@ -465,6 +466,10 @@ def _mkprof_from_database(destination, db, schema, where, full, gzip):
                 records = list(db[table])
         else:
             records = list(db[table])
+        if remake_records and records:
+            # match columns to the target schema by name
+            records = tsdb._remake_records(
+                records, db.schema[table], schema[table])
         tsdb.write(destination,
                    table,
                    records,
